@@ -7,6 +7,7 @@
   shown here to be what `goodB` / `upperB` say.
 -/
 import Csvq.Lemmas.Unicode
+import Csvq.Lemmas.Utf8
 namespace Csvq
 namespace Uni
 open Csvq.Gen.Uni
@@ -204,6 +205,55 @@ theorem tables_ok : tablesOK = true := by
   intro a ha
   have := lite_sound a (lite_all a ha)
   simp [this.1, this.2]
+
+/-! ### the upper case of a scalar value is a scalar value -/
+
+theorem upper_valid_tbl : foldDom.all (fun r => decide (ValidScalar (toUpper r))) = true := by decide +kernel
+
+theorem toUpper_valid (r : Nat) (h : ValidScalar r) : ValidScalar (toUpper r) := by
+  by_cases e : toUpper r = r
+  · rw [e]; exact h
+  · have := upper_valid_tbl
+    rw [List.all_eq_true] at this
+    simpa using this r (toUpper_ne_mem r e)
+
+/-- **strings.ToUpper is idempotent on every byte string** (invalid bytes become U+FFFD the first time) -/
+theorem strToUpper_idem (s : Bytes) : strToUpper (strToUpper s) = strToUpper s := by
+  unfold strToUpper
+  rw [decodeRunes_encodeRunes, List.map_map, List.map_map]
+  apply encodeRunes_congr
+  intro r hr
+  have hv := toUpper_valid r (decodeRunes_valid s r hr)
+  have hs : sanitize (toUpper r) = toUpper r := by unfold sanitize; unfold ValidScalar at hv; rw [if_pos hv]
+  simp only [Function.comp]
+  rw [hs, toUpper_idem tables_ok]
+
+/-- equal upper-cased texts have rune-wise equal upper cases -/
+theorem upper_runes_of_strToUpper_eq (s t : Bytes) (h : strToUpper s = strToUpper t) :
+    (decodeRunes s).map toUpper = (decodeRunes t).map toUpper := by
+  unfold strToUpper at h
+  have := congrArg decodeRunes h
+  rw [decodeRunes_encodeRunes_valid _ (by
+        intro r hr; obtain ⟨x, hx, rfl⟩ := List.mem_map.mp hr; exact toUpper_valid x (decodeRunes_valid s x hx)),
+      decodeRunes_encodeRunes_valid _ (by
+        intro r hr; obtain ⟨x, hx, rfl⟩ := List.mem_map.mp hr; exact toUpper_valid x (decodeRunes_valid t x hx))] at this
+  exact this
+
+theorem runesFoldEq_of_upper_eq : ∀ (l m : List Nat), l.map toUpper = m.map toUpper → (∀ r ∈ l, r ≠ 305) → (∀ r ∈ m, r ≠ 305) →
+    runesFoldEq l m = true
+  | [], [], _, _, _ => rfl
+  | [], _ :: _, h, _, _ => by simp at h
+  | _ :: _, [], h, _, _ => by simp at h
+  | a :: as, b :: bs, h, hl, hm => by
+    simp only [List.map_cons, List.cons.injEq] at h
+    simp only [runesFoldEq, Bool.and_eq_true]
+    refine ⟨?_, runesFoldEq_of_upper_eq as bs h.2 (fun r hr => hl r (by simp [hr])) (fun r hr => hm r (by simp [hr]))⟩
+    have ha := hl a (by simp)
+    have hb := hm b (by simp)
+    have h1 : runeFoldEq a (toUpper a) = true := (runeFoldEq_iff tables_ok a _).mpr (upper_in_orbit tables_ok a ha)
+    have h2 : runeFoldEq b (toUpper a) = true := by rw [h.1]; exact (runeFoldEq_iff tables_ok b _).mpr (upper_in_orbit tables_ok b hb)
+    rw [runeFoldEq_comm] at h2
+    exact runeFoldEq_trans tables_ok a _ b h1 h2
 
 end Uni
 end Csvq
